@@ -106,6 +106,13 @@ def billing_case(spec, rng, keys):
         vals[int(rng.integers(0, nper))] = 0.0
     reads = pd.Series(np.concatenate([vals, [np.nan]]), index=didx[starts], name="value")
     temp = pd.Series(np.round(55 + rng.normal(0, 8, days + 1), 1), index=didx, name="temp")
+    if spec["entry"] == "series" and spec["n"] % 2:
+        # the weather feed starts before the first read and runs past the last one: those days belong to no billed period
+        eb, ea = int(rng.integers(0, 9)), int(rng.integers(1, 15))
+        fidx = daily_index(tz, str((pd.Timestamp(start) - pd.Timedelta(days=eb)).date()), days + 1 + eb + ea)
+        if fidx[eb] == didx[0]:
+            temp = pd.Series(np.round(55 + rng.normal(0, 8, len(fidx)), 1), index=fidx, name="temp")
+            I.reach("billing.feed_longer_than_the_read_calendar")
     median = float(np.median(steps))
     monthly = median <= 35
     cls = em.BillingBaselineData if spec["role"] == "baseline" else em.BillingReportingData
@@ -184,8 +191,10 @@ def billing_case(spec, rng, keys):
             add("billing-period-not-a-constant-rate%s" % (":dst" if dst else ""), "period starting %s: daily shares are not amount*day/period" % didx[starts[i]], **tag)
     # nothing invented: days outside every period carry no usage
     outside = (t < b[starts[0]]) | (t >= b[starts[-1]])
-    if np.isfinite(o.to_numpy(dtype=float)[outside]).any() and spec["entry"] == "series":
-        pass
+    I.reach("billing.rows_outside_every_period_checked", int(outside.sum()))
+    if np.isfinite(o.to_numpy(dtype=float)[outside]).any():
+        j = int(np.argmax(outside & np.isfinite(o.to_numpy(dtype=float))))
+        add("usage-invented-outside-every-billing-period", "day %s lies outside every billed period but carries usage %r" % (out.index[j], float(o.iloc[j])), **tag)
     keys.add("billing|%s|%s|%s|%s|%s|%s" % (spec["role"], spec["entry"], spec["cycle"], tz, off, dst))
     return n
 
